@@ -252,7 +252,7 @@ pub(crate) fn unit(
                         ));
                     }
 
-                    last = Some(name);
+                    last = Some((name, prefix));
                 }
             }
             OP_POWER => {
@@ -265,7 +265,28 @@ pub(crate) fn unit(
                             Err(error) => return Err(Error::new(*span, BadNumber { error })),
                         };
 
-                        compound.update_power(last, power * current);
+                        // The unit has already been counted once with the
+                        // current sign, `^n` makes that `n` times in total.
+                        let (name, prefix) = last;
+
+                        let delta = match i32::try_from((i64::from(power) - 1) * i64::from(current)) {
+                            Ok(delta) => delta,
+                            Err(..) => return Err(Error::new(*span, IllegalUnitNumber)),
+                        };
+
+                        if delta != 0 {
+                            if let Err(expected) = compound.update(name, delta, prefix) {
+                                return Err(Error::new(
+                                    *span,
+                                    PrefixMismatch {
+                                        unit: source[span.range()].into(),
+                                        expected,
+                                        actual: prefix,
+                                    },
+                                ));
+                            }
+                        }
+
                         continue;
                     }
                     (_, Some(node)) => (*node.value(), *node.span()),
